@@ -345,11 +345,11 @@ example : fastPathApplies nvWorld false [chars% "0a"] [chars% "0b"] [] [chars% "
   Observed on the unchanged binary (twin runs with `GIT_AI_VERIF_NO_FAST_PATH=1`, replayed by
   `./check C15` on every run, known finding `slow-path-cumulative-lines`): for the k-th
   rewritten commit the slow path lists every AI line of the range present in the commit's
-  tracked files (cherry-pick: in the files changed so far, plus the LAST SOURCE commit's lines
-  of tracked files not changed yet; rebase did the same until /repo 4fd233ae) and all sessions
-  of the range; the post-commit note the shortcut copies lists only the lines commit k
-  introduced.  `perCommitLines` / `slowLinesRebase` / `slowLines` are the ghost-level reference
-  model of the line sets (validated against both binaries' notes end to end). -/
+  tracked files and all sessions of the range (until /repo 4fd233ae / efdc0647 also the
+  original head's lines of tracked files not changed yet); the post-commit note the shortcut
+  copies lists only the lines commit k introduced.  `perCommitLines` / `slowLines` are the
+  ghost-level reference model of the two line sets (validated against both binaries' notes end
+  to end). -/
 
 /-- the two-commit witness: commit 1 adds an AI line (session `s1`) to `f1`; commit 2 adds an
     AI line (`s2`) to `f1` and one to `f2`; upstream changed another file only -/
@@ -363,44 +363,31 @@ def w14_t2 : GTree :=
 /-- the shortcut's notes (line sets) for the two rewritten commits … -/
 example : perCommitLines 1 w14_t1 = [(chars% "f1", chars% "s1", 2)] := by decide
 example : perCommitLines 2 w14_t2 = [(chars% "f1", chars% "s2", 4), (chars% "f2", chars% "s2", 2)] := by decide
-/-- … and the slow path's. Rebase: commit 2 carries commit 1's line as well (cumulative). -/
-example : slowLinesRebase w14_t1 = [(chars% "f1", chars% "s1", 2)] := by decide
-example : slowLinesRebase w14_t2 =
-    [(chars% "f1", chars% "s1", 2), (chars% "f1", chars% "s2", 4), (chars% "f2", chars% "s2", 2)] := by decide
-/-- Cherry-pick: commit 1 already carries `f2`'s line of commit 2 (head state of a file not
-    changed yet), commit 2 carries commit 1's line as well — exactly the notes the real binary
-    wrote -/
-example : slowLines w14_t2 w14_t1 [chars% "f1"] =
-    [(chars% "f1", chars% "s1", 2), (chars% "f2", chars% "s2", 2)] := by decide
-example : slowLines w14_t2 w14_t2 [chars% "f1", chars% "f2"] =
+/-- … and the slow path's: the second commit carries the first commit's line as well
+    (cumulative) — exactly the notes the real binary wrote -/
+example : slowLines w14_t1 = [(chars% "f1", chars% "s1", 2)] := by decide
+example : slowLines w14_t2 =
     [(chars% "f1", chars% "s1", 2), (chars% "f1", chars% "s2", 4), (chars% "f2", chars% "s2", 2)] := by decide
 
 def w14_meta (c : Str) : Str :=
   metaJson (chars% "{\n  ") [] (chars% " ") c (chars% ",\n  \"prompts\": {}\n}")
 
 /-- **The unconditional statement is false** (negation witness, replayed on the binary): with
-    the slow path's note as `replay`, the shortcut's note is not `≈` to it although the
-    precondition holds — the line sets differ (even with identical prompt records, which the
-    real slow path also changes). Rebase: second rewritten commit; cherry-pick: already the
-    first. -/
+    the slow path's note for the second rewritten commit as `replay`, the shortcut's note is
+    not `≈` to it although the precondition holds — the line sets differ (even with identical
+    prompt records, which the real slow path also changes). -/
 theorem shortcut_equiv_replay_unconditional_false :
     noteEquiv
       (remapNote (fun _ _ => none)
         (serialize (attOfTriples (perCommitLines 2 w14_t2)) (w14_meta (chars% "0a"))) (chars% "0b"))
-      (serialize (attOfTriples (slowLinesFor true w14_t2 w14_t2 [chars% "f1", chars% "f2"])) (w14_meta (chars% "0b")))
-      (chars% "0b") = false ∧
-    noteEquiv
-      (remapNote (fun _ _ => none)
-        (serialize (attOfTriples (perCommitLines 1 w14_t1)) (w14_meta (chars% "0a"))) (chars% "0b"))
-      (serialize (attOfTriples (slowLinesFor false w14_t2 w14_t1 [chars% "f1"])) (w14_meta (chars% "0b")))
+      (serialize (attOfTriples (slowLines w14_t2)) (w14_meta (chars% "0b")))
       (chars% "0b") = false := by decide
 
-/-- the same two notes agree once the extra lines are removed: the difference is only the
-    cumulative part -/
+/-- the same note against itself re-based: the difference above is only the cumulative part -/
 example : noteEquiv
       (remapNote (fun _ _ => none)
-        (serialize (attOfTriples (perCommitLines 1 w14_t1)) (w14_meta (chars% "0a"))) (chars% "0b"))
-      (serialize (attOfTriples (perCommitLines 1 w14_t1)) (w14_meta (chars% "0b")))
+        (serialize (attOfTriples (perCommitLines 2 w14_t2)) (w14_meta (chars% "0a"))) (chars% "0b"))
+      (serialize (attOfTriples (perCommitLines 2 w14_t2)) (w14_meta (chars% "0b")))
       (chars% "0b") = true := by decide
 
 /-- **shortcut_blame_equiv_partial.** What does hold between the two notes, for every ghost
@@ -408,44 +395,34 @@ example : noteEquiv
     under the line's number in that commit; for every line the k-th commit introduced, the
     cumulative slow-path note and the per-commit note name the same session (or both none).
     Hence both note sets give identical blame for every line of every rewritten commit.
-    `_partial`: it is stated over the ghost reference model of the two line sets
-    (`slowLinesFor`: rebase = all AI lines of the range in the commit's tree; cherry-pick = files
-    the range changed up to k re-derived cumulatively, other tracked files carrying the head state — validated end to end, not proved of the Rust slow path) and
-    needs `changed` to contain the file of every line born at k (a commit that introduces a
-    line changes that file) and distinct paths in a tree.  The reference model takes each
-    line's session from the commit's own tree; that is what the real slow path does exactly
-    when no later commit of the range rewrites or deletes an AI line of the range
-    (append-only ranges: model = both binaries' notes in every twin run).  Outside that
-    domain the real slow path projects the ORIGINAL HEAD's sessions onto earlier commits and
-    blame-equivalence is REFUTED on the binary (known finding
-    `slow-path-misattributes-lines-rewritten-later`; the shortcut's note is the correct one). -/
-theorem shortcut_blame_equiv_partial (rebase : Bool) (head tk : GTree) (changed : List Str) (k : Nat)
-    (hk : 1 ≤ k) (hnd : (tk.map (·.1)).Nodup)
-    (hch : ∀ p j l, lineOf tk p j = some l → l.born = k → changed.contains p = true)
-    (p : Str) (j : Nat) :
-    blameOwn (slowLinesFor rebase head tk changed) tk k p j = blameOwn (perCommitLines k tk) tk k p j := by
+    `_partial`: it is stated over the ghost reference model of the two line sets (`slowLines`:
+    all AI lines of the range in the commit's tree — validated end to end, not proved of the
+    Rust slow path) and needs distinct paths in a tree.  The reference model takes each line's
+    session from the commit's own tree; that is what the real slow path does exactly when no
+    later commit of the range rewrites or deletes an AI line of the range (append-only ranges:
+    model = both binaries' notes in every twin run).  Outside that domain the real slow path
+    projects the ORIGINAL HEAD's sessions onto earlier commits and blame-equivalence is
+    REFUTED on the binary (known finding `slow-path-misattributes-lines-rewritten-later`; the
+    shortcut's note is the correct one). -/
+theorem shortcut_blame_equiv_partial (tk : GTree) (k : Nat) (hk : 1 ≤ k)
+    (hnd : (tk.map (·.1)).Nodup) (p : Str) (j : Nat) :
+    blameOwn (slowLines tk) tk k p j = blameOwn (perCommitLines k tk) tk k p j := by
   unfold blameOwn
   cases hl : lineOf tk p j with
   | none => rfl
   | some l =>
     by_cases hb : l.born = k
     · simp only [hb, if_true]
-      cases rebase with
-      | true =>
-        simp only [slowLinesFor, if_true]
-        rw [slow_rebase_fast_agree_on_born tk k hk hnd p j l hl hb]
-      | false =>
-        simp only [slowLinesFor, Bool.false_eq_true, if_false]
-        rw [slow_fast_agree_on_born head tk changed k hk hnd p j l hl hb (hch p j l hl hb)]
+      rw [slow_fast_agree_on_born tk k hk hnd p j l hl hb]
     · simp [hb]
 
-/-- non-vacuity on the witness: the hypotheses hold and blame is decided for the AI line -/
-example : (w14_t1.map (·.1)).Nodup := by decide
-example : blameOwn (slowLines w14_t2 w14_t1 [chars% "f1"]) w14_t1 1 (chars% "f1") 2 = some (some (chars% "s1")) := by decide
-example : blameOwn (perCommitLines 1 w14_t1) w14_t1 1 (chars% "f1") 2 = some (some (chars% "s1")) := by decide
-example : blameOwn (slowLinesFor true w14_t2 w14_t2 []) w14_t2 2 (chars% "f1") 4 = some (some (chars% "s2")) := by decide
-/-- … and the leaked line of `f2` is never consulted at commit 1 (that line is not born there) -/
-example : blameOwn (slowLines w14_t2 w14_t1 [chars% "f1"]) w14_t1 1 (chars% "f2") 2 = none := by decide
+/-- non-vacuity on the witness: the hypotheses hold and blame is decided for the AI lines -/
+example : (w14_t2.map (·.1)).Nodup := by decide
+example : blameOwn (slowLines w14_t2) w14_t2 2 (chars% "f1") 4 = some (some (chars% "s2")) := by decide
+example : blameOwn (perCommitLines 2 w14_t2) w14_t2 2 (chars% "f1") 4 = some (some (chars% "s2")) := by decide
+/-- … and commit 1's line, which the cumulative note of commit 2 repeats, is never looked up
+    in commit 2's note (it is not born there) -/
+example : blameOwn (slowLines w14_t2) w14_t2 2 (chars% "f1") 2 = none := by decide
 
 end GitAi.Remap
 
